@@ -267,6 +267,22 @@ theorem dotenv_refines_spec (w : World) (cur : Env) (refs : List FileRef) (conte
           have := ih cs hfiles.2 (out :: acc)
           simpa using this
 
+/-- the documented call sequence end to end: with the options in the documented order, a successful load has
+    the name `Spec.decide` selects from (last `WithName`, `COMPOSE_PROJECT_NAME` read through the layers
+    explicit > OS > .env, the compose files, the project directory) -/
+theorem name_decision_documented_order (w : World) (pre : List Opt)
+    (hpre : ∀ x ∈ pre, x ≠ .withDotEnv) (r : Loaded)
+    (h : run w (pre ++ [.withDotEnv]) = .ok r) :
+    ∃ o' m, runOpts w (pre ++ [.withDotEnv]) {} = .ok o' ∧
+      o'.name = requestedName pre [] ∧
+      o'.env.get cpn = lookupLayers [explicitLayer pre, osLayer w pre, m] cpn ∧
+      Spec.decide (sourcesOf w o') = .name r.name := by
+  obtain ⟨o', ho, hl⟩ := run_ok_inv w _ r h
+  obtain ⟨o1, m, _, _, _, hk⟩ := env_precedence_documented_order w pre hpre o' ho
+  refine ⟨o', m, ho, ?_, hk cpn, name_decision w o' r hl⟩
+  rw [runOpts_name w _ {} o' ho]
+  simp [requestedName]
+
 /-! ## non-vacuity: concrete worlds on which the hypotheses of the theorems hold -/
 
 /-- a world with all four name sources and a variable `V` defined in OS env, two env files -/
